@@ -1,6 +1,15 @@
 """C20 - see DESIGN.md section 5/C20.  Bounded stand-in (bounded/C20.py) of the property's
-contract on the real code; labelled bounded, never counted as proved."""
+contract on the real code; labelled bounded, never counted as proved.
+
+Deductive part (contracts/losses.py over the vector model pyvc/lib_vec.py): six of the
+seven shipped losses are under contract "never negative, and 0 when prediction and data
+hold the same numbers" - so no prediction scores better than the perfect one.  Five
+discharge; for `losses.mean` (a signed mean) the first clause is refuted, which is the
+known finding the bounded part replays with concrete data.  cosine_similarity is bounded
+only."""
 from props._runner import run
 
 if __name__ == "__main__":
-    run("C20", "exploration", notes="C20: run-time contract on the real code over an enumerated small scope (bounded stand-in)")
+    run("C20", "exploration", files=["losses.py"],
+        notes="C20: run-time contract on the real code over an enumerated small scope (bounded stand-in, deciding); "
+              "loss functions proved to be >= 0 and 0 at reproduction from elementary numpy facts (losses.mean: known finding)")
